@@ -239,6 +239,39 @@ def mixer_sessions(res, b, rng, tier):
     return {"runs": n, "config": got[2], "seed_byte_positions_swept": 64}
 
 
+def mixer_model_sessions(res, b, driver, rng, tier):
+    """The mixer's words against Model/Mixerm.v (extracted): the exact numbers handed out by ascon_trng_generate_64 / _32 for scripted
+    system answers, per kind of state layout (64-bit sliced, byte array, 32-bit bit-interleaved), through init, refills, the
+    alignment rule after 32-bit draws, and a reseed.  mix_init_injective (Proofs/MixerP.v) is a theorem about this model."""
+    kinds = [("default", "0"), ("c32", "2"), ("directxor", "1")] if tier == "quick" else [("default", "0"), ("c64", "0"), ("c32", "2"), ("directxor", "1"), ("generic", "1")]
+    lines = []
+    for _ in range(20 if tier == "quick" else 200):
+        lines.append((rng.choice([0, 1, 2, 5, 9]), hx(rnd_bytes(rng, 32)), int(rng.random() < 0.8), hx(rnd_bytes(rng, 32)), int(rng.random() < 0.8)))
+    lines += [(3, "00" * 32, 1, "00" * 32, 1), (3, "ff" * 32, 1, "00" * 31 + "01", 0)]
+    per = {}
+    for cfg, kind in kinds:
+        got = b.get(cfg, harness_defs=("-DVERIF_REAL_MIXER",) + tuple(common.CONFIG_FACTS[cfg][0]), tag="-realmixer")
+        if not got:
+            continue
+        ops = ["MIXM %s %d %s %d %s %d" % ((kind,) + l) for l in lines]
+        rc_m, out_m, err_m = common.run_lines(driver, ops)
+        rc_i, out_i, err_i = common.run_lines(got[1], ops)
+        if rc_m != 0 or len(out_m) != len(ops):
+            raise common.Infra("mixer model driver failed: " + (err_m or "")[-500:])
+        if any(o.startswith("KIND-IS-") for o in out_i):
+            raise common.Infra("mixer harness for %s reports state layout %s, expected kind %s" % (cfg, out_i[0], kind))
+        bad = 0
+        for op, m, i in zip(ops, out_m, out_i + [""] * (len(ops) - len(out_i))):
+            if m.split() != i.split():
+                bad += 1
+                if bad <= 2:
+                    res.violation("mixer-words@" + got[2], "ascon_trng_* mixer (%s build) and Model/Mixerm.v disagree on: %s\n model: %s\n impl:  %s" % (got[2], op[:200], m[:300], i[:300]),
+                                  {"config": got[2], "ops": [op], "model": [m], "impl": [i],
+                                   "how": "harness built with -DVERIF_REAL_MIXER and the backend's -DASCON_FORCE_* define; build/ocaml/driver for the model"})
+        per[got[2]] = {"histories": len(ops), "disagreements": bad, "state_layout_kind": kind}
+    return per
+
+
 def run(res, tier, seed, replay=None):
     t0 = time.time()
     rng = random.Random(seed)
@@ -272,8 +305,10 @@ def run(res, tier, seed, replay=None):
                 per.append(diffrun.compare(res, corr, driver, got[1], got[2], sigfn=sig))
         real = None if replay else real_source_sessions(res, driver, b, rng, tier, stats)
         mix = None if replay else mixer_sessions(res, b, rng, tier)
+        mixm = None if replay else mixer_model_sessions(res, b, driver, rng, tier)
     res.cov["real_system_source"] = real
     res.cov["trng_mixer"] = mix
+    res.cov["trng_mixer_vs_model"] = mixm
     res.cov.update({
         "evaluations": sum(p["sessions"] for p in per),
         "distinct_nontrivial": max([p["nontrivial"] for p in per] or [0]),
